@@ -8,7 +8,7 @@ def main():
     if len(sys.argv) < 2:
         print(__doc__); return 2
     subprocess.run(["make", "-C", os.path.join(VERIF, "sim"), "-j16", "B=" + BUILD, "thorough"], stdout=subprocess.DEVNULL, stderr=subprocess.DEVNULL)
-    for b in ("pegsim", "pegsim-tree", "pegsim-cov", "pegsim-c1"):
+    for b in ("pegsim", "pegsim-io", "pegsim-tree", "pegsim-cov", "pegsim-c1"):
         exe = os.path.join(BUILD, b)
         if not os.path.exists(exe):
             continue
